@@ -652,7 +652,72 @@ def run_wrap(ctx, cid, P):
         resume_attempt(ctx, rng, servers, stored, W, r, force=True)
 
 
+def run_refused(ctx, cid, P):
+    """the handshake *call* fails at its very end (the application's Checker
+    refuses the peer after Finished): that connection never completed for the
+    client, so its session is not a resumption source - a retry makes a full
+    handshake"""
+    from tlslite.checker import Checker
+    rng = ctx.rng
+    boot.install_vclock(1_800_000_000.0)
+    ver = tuple(P["ver"])
+    srv = Server("A", P["mech"], rng)
+    cs = settings(minVersion=(3, 0), maxVersion=ver)
+    fl = Flavor("cert", skey="rsa", cset=cs, sset=srv.settings(ver),
+                session_cache=srv.cache,
+                checker_c=Checker(x509Fingerprint="00" * 20))
+    W = {"case": cid, "steps": [["refused_by_checker", P["mech"],
+                                 pair.VNAME[ver]]]}
+    p = Pair()
+    tc, ts = p.handshake(fl)
+    ctx.ev()
+    if not isinstance(tc.exc, E.TLSAuthenticationError):
+        ctx.count("refused_setup_unexpected")
+        return
+    ctx.count("refused_handshakes")
+    sess = p.c.session
+    if sess is None:
+        ctx.count("refused_no_session_left")
+        ctx.cell("cell", "refused|%s|%s|no_session" % (P["mech"],
+                                                      pair.VNAME[ver]))
+        return
+    boot.vclock.advance(5)
+    fl2 = Flavor("cert", skey="rsa", cset=cs, sset=srv.settings(ver),
+                 session_cache=srv.cache, session=sess)
+    p2 = Pair()
+    try:
+        t2c, t2s = p2.handshake(fl2)
+    except Exception as e:   # noqa
+        ctx.inconc("harness exception in refused retry: %r" % (e,))
+        return
+    ctx.ev()
+    W["outcome"] = [outcome(t2c), outcome(t2s)]
+    key = {"clause": "resumed_refused_handshake", "mech": P["mech"],
+           "ver": pair.VNAME[ver]}
+    if p2.c.resumed or p2.s.resumed:
+        ctx.violation(key, W, "the session of a handshake the client's "
+                      "Checker refused was resumed (client=%s server=%s)" %
+                      (p2.c.resumed, p2.s.resumed))
+    elif t2c.status != "done" or t2s.status != "done":
+        if isinstance(t2c.exc, ValueError) and not p2.link.recs("c2s"):
+            ctx.count("client_local_refusal")
+        else:
+            ctx.violation(dict(key, clause="refused_retry_broke"), W,
+                          "retry after a refused handshake did not fall "
+                          "back to a full handshake: %r %r" % (t2c.exc,
+                                                               t2s.exc))
+    else:
+        ctx.count("refused_retry_full")
+    ctx.cell("cell", "refused|%s|%s|%s" % (P["mech"], pair.VNAME[ver],
+                                           "resumed" if p2.c.resumed
+                                           else t2c.status))
+
+
 def make_cases(ctx):
+    for mech in ("cache", "tickets", "both"):
+        for ver in VERS:
+            yield "refused-%s-%d" % (mech, ver[1]), dict(
+                refused=True, mech=mech, ver=ver)
     for cap in (3, 4):
         for extra in (0, 1, 2, 5):
             for ver in ((3, 1), (3, 3)):
@@ -669,6 +734,8 @@ def run(ctx):
         try:
             if P.get("wrap"):
                 run_wrap(ctx, cid, P)
+            elif P.get("refused"):
+                run_refused(ctx, cid, P)
             else:
                 run_history(ctx, cid, P)
         finally:
